@@ -33,6 +33,8 @@ PROFILES = {
     "grumpy-bool": st.one_of(K, K, K, TRUTHY_PRIMS, GR("bool")),
     "grumpy-order": st.one_of(K, K, K, K, GR("lt")),
     "grumpy-eq": st.one_of(K, K, K, GR("eq")),
+    # items with a MUTATING in-place add (lists have one, too): a tool must never use += on them
+    "acc": st.one_of(K, st.integers(0, 3).map(lambda k: ("ACC", k))),
     "eq-all": st.one_of(K, K, TRUTHY_PRIMS, st.just(("EQ",))),
     "grumpy-hash": st.one_of(K, K, K, GR("hash", "eq")),
     "grumpy-add": st.one_of(K, K, K, GR("add")),
@@ -74,6 +76,9 @@ class Uids:
         if isinstance(v, tuple) and v and v[0] == "AW":
             self.n += 1
             return ["W", self.n - 1]
+        if isinstance(v, tuple) and v and v[0] == "ACC":
+            self.n += 1
+            return ["A", v[1], self.n - 1]
         if isinstance(v, tuple) and v and v[0] == "EQ":
             self.n += 1
             return ["E", self.n - 1]
